@@ -1084,6 +1084,39 @@ def rule_not_found_protocol(model):
                           'being false', node=x, ctx=g)
     if nwrite < 1:
         raise AnalysisError('C09.R5: TemplateDict.getitem raises nothing')
+    # ---- layers: the lookup loop skips a layer only on KeyError /
+    # NameError; a layer that refuses or misses a name with anything else
+    # aborts the rendering of a condition that should count as false
+    skipped = set()
+    g = model.func('_DocumentTemplate', 'TemplateDict.getitem')
+    for x in own_nodes(g.node):
+        if isinstance(x, ast.ExceptHandler) and x.type is not None and any(
+                isinstance(y, ast.Continue) for y in ast.walk(x)):
+            els = x.type.elts if isinstance(x.type, ast.Tuple) else [x.type]
+            skipped |= {norm(e).split('.')[-1] for e in els}
+    if not skipped:
+        raise AnalysisError('C09.R5: the handler that skips a layer was '
+                            'not found in TemplateDict.getitem')
+    for mod, qual in (('_DocumentTemplate', 'InstanceDict.__getitem__'),
+                      ('DT_InSV', 'sequence_variables.__getitem__')):
+        h = model.find_func(mod, qual) if hasattr(model, 'find_func') \
+            else None
+        if h is None:
+            continue
+        for x in own_nodes(h.node):
+            if not (isinstance(x, ast.Raise) and x.exc is not None):
+                continue
+            e = x.exc.func if isinstance(x.exc, ast.Call) else x.exc
+            nm = norm(e).split('.')[-1]
+            ok = nm in skipped
+            r.instance(h.where, x, 'skippable' if ok else 'NOT SKIPPED')
+            if not ok:
+                r.finding(h.where, x, f'a namespace layer signals a missing '
+                          f'or refused name with {nm}; the lookup skips a '
+                          f'layer only on {sorted(skipped)}, so a condition '
+                          'naming it aborts the rendering instead of being '
+                          'false (and lower layers are never consulted)',
+                          node=x, ctx=h)
     return r
 
 
